@@ -64,8 +64,10 @@ def plan(tier):
             "blk_distinguishes_drop_threshold_minus_1", "blk_distinguishes_shrink_then_grow",
             "blk_distinguishes_grow_without_carry", "blk_distinguishes_grow_strict",
             "blk_distinguishes_grow_without_neg_carry", "blk_distinguishes_add_offset_sign", "blk_distinguishes_hin_sign",
+            # builder / tables on the block-based matcher, builder object reused and re-configured
+            "long_wildcard_swept_over_block_seams", "long_ambig_on_block_first_rows", "builder_reused_with_redefinition",
             # ukkonen
-            "nonunit_cost", "reuse_mixed_lengths", "capacity_below_m",
+            "cost_nonzero_diagonal", "nonunit_cost", "reuse_mixed_lengths", "capacity_below_m",
             # dist
             "hamming_unequal_refused", "bound_d_minus_1", "bound_d", "bound_u32_max", "empty_string",
             "simd_lane_lengths", "hamming_long",
@@ -77,7 +79,10 @@ def plan(tier):
                 "with |p| in {63,64,65,128,129,200}; texts empty, shorter than p, p, mutated p, planted approximate and "
                 "partial copies (for the block version also copies whose edits all lie left of a block boundary) up to "
                 "300 symbols; unary runs filling the leading blocks exactly followed by a tail, the text run 1-3 symbols longer (exact hit, k=0) or with one substitution; hits of distance exactly k whose k edits all lie left of a block seam (head v x c^r | B, text v* c^(r+1) B), enumerated over u8/u16 blocks, 2-3 blocks, every seam, k<=3; guided search (texts = truncated occurrence followed by an (in)exact occurrence, every truncation point, k<=2, binary/ternary patterns of 2-3 u8/u16 blocks): inputs on which a transcription of the specification's block machine reaches its rare transitions (block kept at bottom k+w-1, drop while the re-activation condition holds, block appended with carry +1 / directly after a drop) or on which one of 7 perturbed copies of the machine reports other hits; the band profile computed by the transcription is checked by TLC against BlkStep (MODEL-DRIFT if different). ukkonen: one object reused for patterns of different lengths, unit "
-                "cost and cost tables with entries 0..3 (also non-zero diagonal). dist: all pairs over {a,b} up to "
+                "cost and cost tables with entries 0..3, required class: non-zero diagonal (a symbol does not match itself)."
+                " MyersBuilder: block-based matchers with a text wildcard swept over every position of an occurrence and an ambiguous "
+                "pattern symbol on the first row of every block; ONE builder object re-configured between builds (same ambiguity byte "
+                "widened, narrowed, reset; wildcard added), every matcher judged under the call list at build time (last ambig() per byte counts). dist: all pairs over {a,b} up to "
                 "length 3/4, lengths around the SIMD lanes up to 129 (300 thorough), bounds {0,d-1,d,d+1,max-1,max,"
                 "max+1,u32::MAX}, Hamming up to 3000 symbols. distinct_nontrivial counts runs (distinct by construction: "
                 "own case number and seed stream) in which some threshold selected a non-empty proper subset of the end "
